@@ -1353,3 +1353,31 @@ func (po *PO) ClassSummary() string {
 	}
 	return sb.String()
 }
+
+
+// deferredIsSite: a deferred call that is executed directly as an event (sync/atomic on a
+// shared location, harness intrinsics).
+func (po *PO) deferredIsSite(st *State, d deferRec) bool {
+	fv, ok := d.fn.(Func)
+	if !ok || fv.Fn == nil {
+		return false
+	}
+	name := fv.Fn.String()
+	if strings.HasPrefix(name, "sync/atomic.") || strings.HasPrefix(name, "(*sync/atomic.Value).") {
+		if len(d.args) > 0 {
+			if p, ok := d.args[0].(Ptr); ok {
+				if strings.HasPrefix(name, "(*sync/atomic.Value).") {
+					p = p.sub(0)
+				}
+				return po.sharedAtomic(st, p)
+			}
+		}
+		return false
+	}
+	if name == "(*sync.Mutex).Lock" || name == "(*sync.Mutex).Unlock" {
+		if p, ok := d.args[0].(Ptr); ok {
+			return po.sharedAtomic(st, p.sub(0))
+		}
+	}
+	return poIntrinsicSites[fv.Fn.Name()]
+}
